@@ -156,7 +156,10 @@ def time_family(rnd, base, n_time, n_t2t):
     """Datetime variants of lookup configurations: the same coordinate with CF
     units, probed with datetime objects (UTC, another zone, naive)."""
     out = []
-    pool = list(base)
+    # (small values only: a coordinate value is a number of days / hours /
+    # minutes since the reference, and the model computes in 32 bits)
+    pool = [cf for cf in base if 'sc' not in cf and
+            max(abs(x) for x in cf['c']) < 5000]
     rnd.shuffle(pool)
     for cf in pool[:n_time]:
         d = {k: cf[k] for k in ('c', 'rep', 'e', 'method', 'clean', 'bnd',
@@ -259,6 +262,33 @@ def run(tier):
         if rnd.random() < 0.4:
             cf['sc'] = 2
             cf['cdt'] = rnd.choice(['i', 'f', 'h'])
+        extra.append(cf)
+    # narrow integer coordinates with LARGE values (pressure in Pa as int16,
+    # epoch seconds as int32) and no bounds variable: the edges are derived
+    # from the centres - sums of neighbours exceed the type's range
+    for i in range(120 if tier == 'quick' else 1200):
+        n = rnd.randint(2, 6)
+        cdt = rnd.choice(['h', 'i'])
+        lo, hi, st = (16400, 32700, 100) if cdt == 'h' else \
+            (1073741900, 2147483000, 3600)
+        vals = sorted(lo + st * k for k in rnd.sample(
+            range(0, (hi - lo) // st), n))
+        if rnd.random() < 0.5:
+            vals = vals[::-1]
+        vals = [2 * x for x in vals]            # the model's half units
+        e = [vals[0] - (vals[1] - vals[0]) // 2] + \
+            [(a + b) // 2 for a, b in zip(vals[:-1], vals[1:])] + \
+            [vals[-1] + (vals[-1] - vals[-2]) // 2]
+        cf = {'c': vals, 'rep': 'none', 'e': e,
+              'method': rnd.choice(['bounds', 'bounds', 'nearest']),
+              'clean': rnd.choice(['none', 'mask']),
+              'bnd': rnd.choice(['ignore', 'warn']), 'nan': False,
+              'sc': 2, 'cdt': cdt}
+        if cdt == 'i':
+            # (the model's integers are 32-bit: values relative to a base)
+            continue
+        ps = set(vals) | {x + 2 for x in e[1:-1]} | {x - 2 for x in e[1:-1]}
+        cf['probes'] = sorted(ps)
         extra.append(cf)
     # an explicit finite value for the right side (left omitted): what is
     # returned above the last edge, method 'bounds', ascending coordinates
